@@ -264,19 +264,19 @@ Definition pl_user_level (users_default0 : Z) (pl : event) (user : bytes) : opti
   end.
 
 (* CreatorsFromCreateEvent: sender, then content.additional_creators *)
-Fixpoint json_strings (l : list json) : list bytes :=
+Fixpoint json_strings (l : list json) : option (list bytes) :=
   match l with
-  | [] => []
-  | JStr s :: r => s :: json_strings r
-  | _ :: r => json_strings r
+  | [] => Some []
+  | JStr s :: r => option_map (cons s) (json_strings r)
+  | _ => None
   end.
 
 Definition creators_of (create : event) : list bytes :=
   e_sender create ::
   match content_json create with
   | Some j => match jget_last (bs "additional_creators") j with
-              | Some (JArr l) => json_strings l
-              | _ => []
+              | Some (JArr l) => match json_strings l with Some ss => ss | None => [] end
+              | _ => []   (* absent, or malformed: only the sender (after the F12 repair) *)
               end
   | None => []
   end.
